@@ -211,42 +211,6 @@ class Patches:
         # Store corners of all patches in various formats, but keep the order:
         # top_left, bottom_left, bottom_right, top_right
 
-        # Corners in global Cartesian coordinates, using metric units
-        if self.base.space_dim == 2:
-
-            self.global_corners_cartesian = np.array(
-                [
-                    [
-                        np.array(
-                            [
-                                [
-                                    j * patch_dimensions_metric[1],
-                                    -i * patch_dimensions_metric[0],
-                                ],
-                                [
-                                    j * patch_dimensions_metric[1],
-                                    -(i + 1) * patch_dimensions_metric[0],
-                                ],
-                                [
-                                    (j + 1) * patch_dimensions_metric[1],
-                                    -(i + 1) * patch_dimensions_metric[0],
-                                ],
-                                [
-                                    (j + 1) * patch_dimensions_metric[1],
-                                    -i * patch_dimensions_metric[0],
-                                ],
-                            ]
-                        )
-                        + self.base.origin[np.newaxis, :]
-                        for j in range(self.num_patches[1])
-                    ]
-                    for i in range(self.num_patches[0])
-                ]
-            )
-
-        elif self.base.space_dim == 3:
-            raise NotImplementedError
-
         # Corners in global voxel coordinates.
         if self.base.space_dim == 2:
             self.global_corners_voxels = np.array(
@@ -269,6 +233,28 @@ class Patches:
                 ],
                 dtype=int,
             )
+        elif self.base.space_dim == 3:
+            raise NotImplementedError
+
+        # Corners in global Cartesian coordinates, using metric units. The patches are cut
+        # at the voxel corners; their Cartesian counterparts follow from the coordinate
+        # system of the base image.
+        if self.base.space_dim == 2:
+
+            self.global_corners_cartesian = np.array(
+                [
+                    [
+                        np.asarray(
+                            self.base.coordinatesystem.coordinate(
+                                self.global_corners_voxels[i, j]
+                            )
+                        )
+                        for j in range(self.num_patches[1])
+                    ]
+                    for i in range(self.num_patches[0])
+                ]
+            )
+
         elif self.base.space_dim == 3:
             raise NotImplementedError
 
